@@ -387,7 +387,9 @@ DIFF_SOURCES = [
     ("<*a = 1, _proto_ = <*z = 9*>, b = [2]*>", ["keys ", "entries "]),
     ("<**>", ["keys "]),
 ]
-DIFF_VALUES = ["x", "[x]", "string(x)"]
+# c: a variable of the enclosing scope (the value expression is a bare
+# identifier that is not the loop variable)
+DIFF_VALUES = ["x", "[x]", "string(x)", "c"]
 DIFF_KEYS = ["string(x)", "length(string(x))", "1"]
 DIFF_CONDS = ["", "string(x) != 'a' and string(x) != '1'"]
 
@@ -401,21 +403,35 @@ def comp_loop_pairs():
                 lif = "if " + cond + " then " if cond else ""
                 for f in DIFF_VALUES:
                     yield "list", (
-                        f"def s = {src}; [[{f} for x in {sel}s{cif}], "
+                        f"def c = 7; def s = {src}; "
+                        f"[[{f} for x in {sel}s{cif}], "
                         f"do def r = []; for x in {sel}s do "
                         f"{lif}append(r, {f}); end; r end]")
                     yield "set", (
-                        f"def s = {src}; [<<{f} for x in {sel}s{cif}>>, "
+                        f"def c = 7; def s = {src}; "
+                        f"[<<{f} for x in {sel}s{cif}>>, "
                         f"do def r = <<>>; for x in {sel}s do "
                         f"{lif}append(r, {f}); end; r end]")
                     for k in DIFF_KEYS:
                         yield "map", (
-                            f"def s = {src}; "
+                            f"def c = 7; def s = {src}; "
                             f"[<<<{k} => {f} for x in {sel}s{cif}>>>, "
                             f"do def r = <<<>>>; for x in {sel}s do "
                             f"{lif}r[{k}] = {f}; end; r end]")
 
 
+    # an inner comprehension whose value is the loop variable of the outer
+    for (o, c, ini) in (("[", "]", "[]"), ("<<", ">>", "<<>>")):
+        yield "nested", (
+            f"[{o} {o}x for y in range(2){c} for x in range(3) {c}, "
+            f"do def r = {ini}; for x in range(3) do def q = {ini}; "
+            f"for y in range(2) do append(q, x); end; append(r, q); end; "
+            f"r end]")
+        yield "nested", (
+            f"[{o} {o}y for y in range(x){c} for x in range(3) {c}, "
+            f"do def r = {ini}; for x in range(3) do def q = {ini}; "
+            f"for y in range(x) do append(q, y); end; append(r, q); end; "
+            f"r end]")
     # two sources with a selector each (maps whose values ascend with their
     # keys, so that key order and value order coincide)
     m1 = "<<<1 => 10, 2 => 20>>>"
